@@ -19,14 +19,17 @@ type Call struct {
 }
 
 var SharedLists = map[string][]string{
-	"L1": {"mit", "GPL-2.0+", "LicenseRef-a", "Apache-2.0", "ISC", "GPL-2.0+"},
-	"L2": {"MIT", "FOO", "Apache-2.0-or-later", "(MIT AND ISC)", "", "MIT"},
-	"L3": {"GPL-2.0-or-later"},
-	"L4": {"Zlib", "MIT"},
-	"L5": {"zlib", "ISC", "isc", "MIT", "Apache-2.0", "0BSD", "mit"},
-	"L6": {"MIT AND ISC", "LicenseRef-q", "MIT WITH Bison-exception-2.2"},
-	"L8": {"LGPL-2.0+", "JSON", "LicenseRef-a", "LGPL-3.0-only"},
-	"L7": {"mit and isc", "licenseref-q", "MIT and ISC", "mit with bison-exception-2.2", "LicenseRef-Q"},
+	"L1":  {"mit", "GPL-2.0+", "LicenseRef-a", "Apache-2.0", "ISC", "GPL-2.0+"},
+	"L2":  {"MIT", "FOO", "Apache-2.0-or-later", "(MIT AND ISC)", "", "MIT"},
+	"L3":  {"GPL-2.0-or-later"},
+	"L4":  {"Zlib", "MIT"},
+	"L5":  {"zlib", "ISC", "isc", "MIT", "Apache-2.0", "0BSD", "mit"},
+	"L6":  {"MIT AND ISC", "LicenseRef-q", "MIT WITH Bison-exception-2.2"},
+	"L8":  {"LGPL-2.0+", "JSON", "LicenseRef-a", "LGPL-3.0-only"},
+	"L10": {"MPL-2.0+"},
+	"L11": {"MPL-2.0+", "Zlib"},
+	"L12": {"MPL-1.0+", "Zlib"},
+	"L7":  {"mit and isc", "licenseref-q", "MIT and ISC", "mit with bison-exception-2.2", "LicenseRef-Q"},
 }
 
 func init() {
@@ -88,6 +91,10 @@ var Alphabet = []Call{
 	// long expressions (> 16 tokens): buffers that are only pooled / cached above a size threshold
 	{Fn: "ExtractLicenses", Expr: "MIT AND ISC AND Zlib AND 0BSD AND Apache-2.0 AND BSD-3-Clause AND MPL-2.0 AND Unlicense AND X11 AND NTP AND W3C"},
 	{Fn: "Satisfies", Expr: "(Vim OR TCL OR Zed OR curl OR Ruby OR PHP-3.01 OR OFL-1.1 OR NCSA OR Libpng OR JSON) AND LicenseRef-a AND LGPL-2.1+", List: "L8"},
+	// ids that the range table lists twice (lookup order matters for them)
+	{Fn: "Satisfies", Expr: "MPL-2.0-no-copyleft-exception OR MPL-1.1+", List: "L10"},
+	{Fn: "Satisfies", Expr: "MPL-1.1+", List: "L11"},
+	{Fn: "Satisfies", Expr: "MPL-2.0-no-copyleft-exception", List: "L12"},
 	// a long list (work that is only split up / batched above a size threshold)
 	{Fn: "ValidateLicenses", List: "L9"},
 	{Fn: "Satisfies", Expr: "MIT AND Zed", List: "L9v"},
